@@ -3,6 +3,7 @@ package stun
 import (
 	"errors"
 	"io"
+	"time"
 )
 
 // C12 — responses reach the transaction with the same ID and nothing else.
@@ -261,6 +262,9 @@ func vh_C15_close() {
 	}
 	vxGuard("Client", "closed", "mux")
 	vxGuard("Client", "t", "mux")
+	vxGuard("Client", "rto", "@atomic")
+	vxGuard("Client", "maxAttempts", "@atomic")
+	env.c.SetRTO(time.Duration(1 + vxLen(1000))) // SetRTO may run concurrently with everything else: atomic access only
 	err := env.c.Close()
 	vxGuardsOff()
 	if overlap {
